@@ -36,3 +36,32 @@ def LeafSelectionViolated (s : Schema) (d : Document) : Prop :=
     ((t.isLeaf = true ∧ f.sel ≠ []) ∨ (t.isLeaf = false ∧ f.sel = []))
 
 end Gql.Spec
+
+namespace Gql.Spec
+
+/-! ### 5.4 Arguments (C09) -/
+
+/-- directive `dir` occurs in the document -/
+def DirectiveAt (s : Schema) (d : Document) (dir : Directive) : Prop :=
+  ∃ env, (Ev.enter (.directive dir), env) ∈ walkOf s d
+
+/-- 5.4.1: an argument is not declared by the (known) field or directive it is attached to -/
+def UnknownArgumentUsed (s : Schema) (d : Document) : Prop :=
+  (∃ f env P fd a, FieldAt s d f env ∧ env.parent = some P ∧ P.fieldByName f.name = some fd ∧
+      a ∈ f.args ∧ ∀ x ∈ fd.args, x.name ≠ a.1)
+  ∨ (∃ dir dd a, DirectiveAt s d dir ∧ s.directiveByName dir.name = some dd ∧
+      a ∈ dir.args ∧ ∀ x ∈ dd.args, x.name ≠ a.1)
+
+/-- 5.4.2: two arguments of one field or directive share a name -/
+def DuplicateArgument (s : Schema) (d : Document) : Prop :=
+  (∃ f env, FieldAt s d f env ∧ ¬ (f.args.map (·.1)).Nodup)
+  ∨ (∃ dir, DirectiveAt s d dir ∧ ¬ (dir.args.map (·.1)).Nodup)
+
+/-- 5.4.2.1: a declared argument of non-null type without default is not supplied -/
+def RequiredArgumentMissing (s : Schema) (d : Document) : Prop :=
+  (∃ f env P fd ad, FieldAt s d f env ∧ env.parent = some P ∧ P.fieldByName f.name = some fd ∧
+      ad ∈ fd.args ∧ ad.isRequired = true ∧ ∀ a ∈ f.args, a.1 ≠ ad.name)
+  ∨ (∃ dir dd ad, DirectiveAt s d dir ∧ s.directiveByName dir.name = some dd ∧
+      ad ∈ dd.args ∧ ad.isRequired = true ∧ ∀ a ∈ dir.args, a.1 ≠ ad.name)
+
+end Gql.Spec
